@@ -68,6 +68,8 @@ def lexOf (t : String) (s : Text) : Json :=
   | "duration" => Json.bool (XsdLex.duration s)
   | "double" => Json.bool (XsdLex.double s)
   | "uuid" => Json.bool (uuidPattern s)
+  | "base64Binary" => Json.bool (XsdLex.base64Binary s)
+  | "hexBinary" => Json.bool (XsdLex.hexBinary s)
   | _ => Json.null
 
 def step (j : Json) : Json :=
@@ -108,6 +110,7 @@ def step (j : Json) : Json :=
     Json.mkObj [("ok", textJson (dateToTextFmt G (getBool j "soap") (getFmt j) ⟨a.getD 0 0, a.getD 1 0, a.getD 2 0⟩))]
   | "datef.from" =>
     outJson (fun (d : Date) => Json.arr #[d.y, d.m, d.d]) (dateFromTextFmt F (getFmt j) (getText j "s"))
+  | "b64ws.from" => optJson natsJson (b64FromText G (getText j "s"))
   | "fmt.wf" => Json.mkObj [("ok", Json.bool (Fmt.wf (getFmt j)))]
   | "uuid.from" => outJson natsJson (uuidFromText (getText j "s"))
   | "dtc.to" =>
